@@ -94,7 +94,7 @@ Variable so : bool.
 Variable g : cgraph.
 Variable nts : list ascii.
 Hypothesis SEED : seed p so = OK (lay, g).
-Hypothesis SOK : spec_okb p so = true.
+Hypothesis WFH : spec_wf p so.
 Hypothesis DOK : dgraph_ok p lay so = true.
 Hypothesis SAME : same_graph p lay so g = true.
 Hypothesis GOK : graph_ok g = true.
@@ -102,7 +102,7 @@ Hypothesis PLACE : place_okb p lay so = true.
 Variables (e w : list (option nat)) (s : list (option ascii)).
 Hypothesis ARR : get_constraints p so = DOk e w s.
 
-Let WF := spec_okb_wf p so SOK.
+Let WF := WFH.
 Let npos := l_npos lay.
 
 Hypothesis FITS : fits nts e w.
@@ -586,7 +586,7 @@ Lemma item_ok_le B1 B2 it : B1 <= B2 -> item_ok p B1 it -> item_ok p B2 it.
 Proof. intros L. apply item_ok_mono. exact L. Qed.
 
 (* C06, designer side: the designed string flows into consistent records *)
-Theorem design_results_ok : exists a recs, process_results p lay nts = OK a /\ output_records p a = OK recs /\
+Theorem design_results_ok_wf : exists a recs, process_results p lay nts = OK a /\ output_records p a = OK recs /\
   (* every sequence and its complement have records of the declared length, reverse complements of one another *)
   (forall k n t, nth_error (p_bases p) k = Some (n, t) -> exists v wv, In (n, v) recs /\ In ((n ++ "*")%string, wv) recs /\
        wc_codes v = Some wv /\ List.length v = List.length t) /\
@@ -643,6 +643,9 @@ Proof. destruct process_results_ok as [a [EP [IA [IK Q]]]]. exists a.
       cbn [option_map]. rewrite EQ, app_par_invol. reflexivity.
   - intros sn names sy len Hin. apply INC2, INC1. unfold structs. apply in_map_iff. exists (sn, (names, sy, len)). auto. Qed.
 End Results.
+
+Definition design_results_ok p lay so g nts (SEED : seed p so = OK (lay, g)) (SOK : spec_okb p so = true) :=
+  design_results_ok_wf p lay so g nts SEED (spec_okb_wf p so SOK).
 
 (* ---- the hypothesis `fits` as an executable check, and a concrete document meeting every hypothesis ---- *)
 Definition fitsb (nts : list ascii) (e w : list (option nat)) : bool :=
